@@ -38,6 +38,8 @@ type override struct {
 	EmptyColl bool
 	// Coll: size of the overriding collection(s) relative to the catalogue's (smaller / equal / larger / empty / mixed), for the counters
 	Coll string
+	// Zero: the override sets an option, which the catalogue entry has switched on, to its zero value (zerovalue_test.go)
+	Zero bool
 	// Family: overrides of one mechanism with the same family are different but textually close to each other (closepairs_test.go)
 	Family string
 }
@@ -473,6 +475,7 @@ func catalogue(s *servers, keyStore string, now time.Time) []*mechSpec {
 				{Name: "realm-empty", Cfg: M{"realm": ""}, Equiv: true}},
 			Inputs: ehInputs},
 	}
+	specs = append(specs, zeroValueSpecs(specs)...)
 	specs = append(specs, collectionSpecs(s, jwtInputs, opaque)...)
 	return append(specs, closeSpecs(s, keyStore, opaque)...)
 }
